@@ -289,6 +289,22 @@ def gen(rng, tier):
         ws[rng.randrange(len(ws))] = "abandon"
         yield Case("ev2dec", [lang, "any", tx(" ".join(ws)), oracle_for(" ".join(ws))], "neg-v2")
         yield Case("ev2dec", [lang, "any", tx(" ".join(ws[:-1])), oracle_for(" ".join(ws[:-1]))], "neg-v2")
+    # languages the scheme does NOT define (F-ev2-foreign-language): a sentence of 12 words of another BIP-39 list whose version hash has the
+    # standard prefix (found with hmac, 1 in 256) is made of words that belong to no Electrum-v2 list: refused with automatic detection
+    import hmac as _hmac, hashlib as _hashlib, unicodedata as _ud
+    for lang in ("ITALIAN", "FRENCH", "CZECH", "KOREAN", "CHINESE_TRADITIONAL") if tier != "quick" else ("ITALIAN", ("FRENCH", "CZECH", "KOREAN")[rng.randrange(3)]):
+        wl = Bip39WordsListGetter().GetByLanguage(Bip39Languages[lang])
+        own = [wl.GetWordAtIdx(i) for i in range(2048)]
+        if lang in ("FRENCH", "CHINESE_TRADITIONAL"):     # keep only words no defined list contains (English / simplified Chinese overlap)
+            other = Bip39WordsListGetter().GetByLanguage(Bip39Languages["ENGLISH" if lang == "FRENCH" else "CHINESE_SIMPLIFIED"])
+            shared = {other.GetWordAtIdx(i) for i in range(2048)}
+            own = [w for w in own if w not in shared]
+        for _ in range(4000):
+            ph = " ".join(rng.choice(own) for _ in range(12))
+            if _hmac.new(b"Seed version", _ud.normalize("NFKD", ph).encode("utf-8"), _hashlib.sha512).hexdigest().startswith("01"):
+                yield Case("ev2dec", ["auto", "any", tx(ph), oracle_for(ph)], "neg-v2-foreign-language")
+                yield Case("ev2dec", ["auto", "STANDARD", tx(ph), oracle_for(ph)], "neg-v2-foreign-language")
+                break
     # the BIP-39 exclusion, in every language of the scheme: a sentence with the standard version prefix that is also checksum-valid BIP-39
     for lang in V2_LANGS:
         wl = Bip39WordsListGetter().GetByLanguage(Bip39Languages[lang])
